@@ -332,6 +332,71 @@ def r10_repeatable_builtins(chk, prog, rule='R10'):
     chk.require(n >= 3, 'repeatable built-in arguments found: %d' % n)
 
 
+def r12_subgroup_cursor(chk, prog, rule='R12'):
+    """after a sub-group argument the main handler goes on with the first word the sub-group handler did NOT consume:
+    the sub-group branch of Handler::processArg is evaluated abstractly (Engine B; iterators are word indices, the
+    sub-handler consumes the first k words behind the key, k = 0..2) - when it returns, the main iterator stands on
+    the LAST CONSUMED word (the key itself for k = 0), because the caller's loop advances it once more.  A cursor
+    that is moved before the sub-handler has taken the word makes the main handler skip the word behind a sub-group
+    key that has no sub-arguments ('-o -v': -v is silently ignored)"""
+    from ..boolshape import Interp, NeedAtom, Unsupported, Throw
+    f = prog.one('celma::prog_args::Handler', 'processArg')
+    target = None
+    for ifs in (x for x in f.walk() if x.get('k') == 'IfStmt'):
+        kids = [c for c in ifs.get('c', []) if c is not None]
+        if len(kids) >= 2 and any(c.get('k') in CALL_KINDS and callee_is(c, 'Handler::evalSingleArgument')
+                                  for c in walk(kids[1])):
+            target = kids[1]
+    chk.require(target is not None, 'processArg: sub-group branch not found')
+    en = prog.enums.get('celma::prog_args::Handler::ArgResult')
+    chk.require(en is not None, 'enum Handler::ArgResult not found')
+    res = {e['name']: e['val'] for e in en['enumerators']}
+    it_name = f.params[1]['name']
+    end_name = f.params[2]['name']
+    n = 0
+    for nwords, k in ((1, 0), (2, 0), (2, 1), (3, 1), (3, 2), (4, 2)):
+        # words: index 0 = the sub-group key, 1 .. nwords-1 = what follows; the sub-handler consumes k of them
+        state = {'calls': 0}
+
+        def cb_eval(itp, call):
+            cur = itp.ev_obj(call_args(call)[0])
+            state['calls'] += 1
+            return res['consumed'] if 1 <= cur <= k else res['unknown']
+
+        def cb_inc(itp, call):
+            a = call_args(call)
+            name = strip_all_casts(a[0]).get('ref', {}).get('name')
+            old = itp.atom(name, 'ord')
+            itp.set_atom(name, old + 1)
+            return old if len(a) > 1 else old + 1          # postfix (dummy argument) yields the old position
+
+        def cb_assign(itp, lhs, v):
+            return False
+        cbs = {'evalSingleArgument': cb_eval, 'operator++': cb_inc, 'handleIdentifiedArg': lambda i_, c: 0,
+               'obj': lambda i_, c: 500, 'ResetAtExit': lambda i_, c: 0, 'operator!=': lambda i_, c: int(
+                   i_.ev_obj(call_args(c)[0]) != i_.ev_obj(call_args(c)[1])),
+               'operator==': lambda i_, c: int(i_.ev_obj(call_args(c)[0]) == i_.ev_obj(call_args(c)[1])),
+               'operator=': lambda i_, c: (i_.set_atom(strip_all_casts(call_args(c)[0]).get('ref', {}).get('name'),
+                                                       i_.ev_obj(call_args(c)[1])) or 0),
+               '<atom>': lambda i_, key: 0 if key.endswith('mReadMode') or key.endswith('mpLastArg') else None,
+               '<loops>': True}
+        itp = Interp(f, {}, callbacks=cbs, prog=None)
+        itp.locals[it_name] = 0
+        itp.locals[end_name] = nwords
+        itp.locals['p_arg_hdl'] = 7
+        try:
+            out = itp.run(target)
+        except (NeedAtom, Unsupported) as e:
+            raise AnalysisBroken('processArg: the sub-group branch is not interpretable: %s' % getattr(e, 'key', e))
+        pos = itp.locals.get(it_name)
+        n += 1
+        chk.check(out[0] == 'return' and pos == k, rule, f.name, 'after a sub-group key the main iterator stands on the '
+                  'last word the sub-group handler consumed [%d word(s) behind the key, %d consumed]' % (nwords - 1, k),
+                  f.loc(target), 'it stands on word %s (the caller advances it once more: word %s is %s)' % (
+                      pos, pos, 'never offered to the main handler' if isinstance(pos, int) and pos > k else 'evaluated twice'))
+    return n
+
+
 def run(chk):
     prog, units = rules.prog_args_program()
     chk.units = units
@@ -377,6 +442,8 @@ def run(chk):
     chk.rule('R11', 'tokeniser cursor invariant: every word is analysed from its first character', 4)
     from . import c04_cursor
     c04_cursor.run(chk, prog, rule='R11')
+    chk.rule('R12', 'the main handler continues with the first word the sub-group handler did not consume', 6)
+    r12_subgroup_cursor(chk, prog)
     sub = type(chk)(chk.pid, chk.tier)
     sub._known = []
     c02.r3_canonical_key(sub, prog)
